@@ -385,5 +385,36 @@ func RandPlan(r *rand.Rand, o GenOpts) *workflow.Plan {
 		}
 		p.Blocks = append(p.Blocks, blk)
 	}
+	// ids are arbitrary v7 uuids as far as a vault is concerned: hand the action ids out in shuffled order so that
+	// a reader that orders by id instead of by position is visible
+	var acts []*workflow.Action
+	collect := func(c *workflow.Checks) {
+		if c != nil {
+			acts = append(acts, c.Actions...)
+		}
+	}
+	collect(p.BypassChecks)
+	collect(p.PreChecks)
+	collect(p.ContChecks)
+	collect(p.PostChecks)
+	collect(p.DeferredChecks)
+	for _, b := range p.Blocks {
+		collect(b.BypassChecks)
+		collect(b.PreChecks)
+		collect(b.ContChecks)
+		collect(b.PostChecks)
+		collect(b.DeferredChecks)
+		for _, sq := range b.Sequences {
+			acts = append(acts, sq.Actions...)
+		}
+	}
+	perm := r.Perm(len(acts))
+	ids := make([]uuid.UUID, len(acts))
+	for i, a := range acts {
+		ids[i] = a.ID
+	}
+	for i, a := range acts {
+		a.ID = ids[perm[i]]
+	}
 	return p
 }
